@@ -44,7 +44,7 @@ def grid(tier):
                     for form in FORMS:
                         for ed in EDITS:
                             pts.append({"d": d, "k": k, "lookalike": lookalike, "count": cnt, "form": form, "edit": ed,
-                                        "by_object": (d + k + cnt + len(form)) % 2 == 0})
+                                        "by_object": (d + k + cnt + len(form)) % 2 == 0, "extra_sub": (d + k + EDITS.index(ed)) % 2 == 0})
     if tier != "thorough":
         # keep every (d, k, lookalike, count) combination at least once; stride forms x edits
         out = []
@@ -149,10 +149,13 @@ def write(root, files):
             f.write(content)
 
 
-def evaluate(root, store_dir, pt, module, func):
+def evaluate(root, store_dir, pt, module, func, twice=False):
     w = proc.Worker()
     try:
         accepted = ["rootpk"] + [f"dummy{i}.pkg" for i in range(pt["count"])]
+        if pt.get("extra_sub") and not pt["lookalike"] and pt["k"] <= pt["d"]:
+            # a sub-package of the accepted package is accepted too (it sorts before the next component of the module)
+            accepted.append(accepted_name(pt) + ".a0")
         by_obj = pt.get("by_object") and not pt["lookalike"]
         if not by_obj:
             accepted.append(accepted_name(pt))
@@ -160,7 +163,12 @@ def evaluate(root, store_dir, pt, module, func):
         if by_obj:
             # dds.accept_module also takes the module object
             w.call("call", module="vf.props.c14", func="_accept_object", args=[accepted_name(pt)])
-        return w.call("eval", module=module, func=func, style="direct")
+        r = w.call("eval", module=module, func=func, style="direct")
+        if twice:
+            # the same call again in the same process (after the first outcome was observed)
+            r2 = w.call("eval", module=module, func=func, style="direct")
+            r["second"] = r2
+        return r
     finally:
         w.close()
 
@@ -211,7 +219,10 @@ def check_point(pt, ev=None, scratch=None):
             raise Violation(
                 f"accepted={acc!r} (+{pt['count']} other packages): edit {pt['edit']} of the NON-accepted module {where} changed the signature of /out", pt)
         # data function of the deep module called directly
-        r2 = evaluate(root, scratch.sub(), pt, ".".join(parts_of(pt["d"])), "ldata")
+        r2 = evaluate(root, scratch.sub(), pt, ".".join(parts_of(pt["d"])), "ldata", twice=True)
+        if not leaf_is_accepted(pt) and r2["second"]["exc"] is None:
+            raise Violation(f"accepted={acc!r}: the data function of the non-accepted module {'.'.join(parts_of(pt['d']))} was refused once, then evaluated untracked "
+                            f"when called again in the same process (returned {r2['second']['value']!r})", pt)
         if leaf_is_accepted(pt):
             if r2["exc"] is not None or r2["value"] != ("ldata", ("lf", st1["ver"], st1["lv"])):
                 raise Violation(f"accepted={acc!r} (+{pt['count']} other packages): data function of the accepted module {'.'.join(parts_of(pt['d']))} "
